@@ -44,3 +44,8 @@ def register(M):
       "",
       "harmless for C11: singletons.discard only acts when one label has size 1 on the left and >1 on the right "
       "(broadcasting), which is outside the property's domain (every label has one size)", T, harmless=True)
+    M("M_C11_r1", ["C11"], "cotengra/contract.py",
+      "        # negative axes count from the end, as for numpy\n        axes_a = tuple(ax + ndim_a if ax < 0 else ax for ax in axes_a)\n        axes_b = tuple(ax + ndim_b if ax < 0 else ax for ax in axes_b)\n",
+      "",
+      "revert of fix afdbc58: negative tensordot axes of the second operand are not contracted (negative_axes)",
+      ["tests/test_compute.py"])
